@@ -11,6 +11,7 @@ import json
 HOSTILE_STRINGS = [
     "", "a", "hello", "with space", "quote\"inside", "back\\slash", "unié中", "{\"k\":1}",
     "null", "0", "tab\there", "new\nline", "'single'", "exec", "ünï",
+    " lead", "trail ", "line\n", "\ttab", "  ",
 ]
 
 
@@ -290,7 +291,9 @@ def extended_name(rng):
 ARG_WORDS = ["amount", "to", "from", "owner", "id", "a", "b", "x", "y", "value", "key", "flag", "n",
              "denom", "who", "memo", "arg1", "arg2", "v2", "_unused", "_x", "data_in", "items", "limit0",
              # names of parameters / locals of the generated dispatch, helper and proxy functions
-             "contract", "ctx", "msg", "deps", "env", "info", "querier", "funds", "contract_addr"]
+             "contract", "ctx", "msg", "deps", "env", "info", "querier", "funds", "contract_addr",
+             # keyword-dodging names: the trailing underscore is part of the key
+             "type_", "ref_", "match_", "amount_"]
 RAW_ARGS = ["r#type", "r#in", "r#match", "r#ref"]
 
 
